@@ -256,6 +256,10 @@ def normalise(facts, known):
         if inl:
             nb, inl2 = resolve_closure_calls(facts, nb)
             nb.inlined = sorted(set(nb.inlined) | set(inl2))
+            from .thread import thread as _thread
+            _inl = nb.inlined
+            nb = _thread(nb)        # a spliced helper's Ok/Err, Some/None results go straight to the arm they select
+            nb.inlined = _inl
             facts.bodies[k] = nb
             nb.key_in_facts = k
             if nb.canon:
